@@ -835,6 +835,10 @@ func (e *Exec) fromNative(v interface{}) Value {
 
 func (e *Exec) math2Model(name string, x, y *Term) Value {
 	tt := e.tt
+	if name == "math.Pow" && y.Const && y.F == 2 {
+		// Pow(x, 2): mantissa squared and rescaled by a power of two = the correctly rounded product
+		return tt.FBin("fp.mul", x, x)
+	}
 	switch name {
 	case "math.Max", "math.Min":
 		// Go: NaN if either is NaN; +Inf/-Inf rules follow from comparison; ±0 ordering
